@@ -39,6 +39,8 @@ def contexts(c, cx, rng=None):
     t1, t2, t0 = T(1), T(2), T(0)
     out = [
         c,
+        {"n": "CX", "site": c.get("site", "R"), "val": t2},
+        {"n": "Add", "a": {"n": "CX", "site": c.get("site", "N"), "val": c if no_walrus(c) else t2}, "b": t1},
         {"n": "Add", "a": c, "b": t1}, {"n": "Add", "a": t2, "b": c}, {"n": "Add", "a": c, "b": c},
         {"n": "If", "c": c, "a": t1, "b": t2}, {"n": "If", "c": t1, "a": c, "b": t2}, {"n": "If", "c": t0, "a": t1, "b": c},
         {"n": "If", "c": t0, "a": c, "b": t2},
@@ -103,6 +105,8 @@ def has_x_free(t, bound=False):
         return not bound
     if n in ("T", "B", "null"):
         return False
+    if n == "CX":
+        return has_x_free(t["val"], bound)
     if n == "C":
         return has_x_free(t["arg"], bound) or (t["kw"]["n"] != "null" and has_x_free(t["kw"], bound))
     if n in ("Add", "And", "Or"):
@@ -144,6 +148,10 @@ class Renderer:
                 k = self.r(t["kw"])
                 parts.append(f"**{{'k': {k}}}" if t["dstar"] else f"k={k}")
             return f"{callee}({', '.join(parts)})"
+        if n == "CX":
+            site = "N" if self.only_next else t["site"]
+            callee = {"R": "recurse", "N": "call_next", "S": self.fname}[site]
+            return f"{callee}(x, k=(x := {self.r(t['val'])}))"
         if n == "Add":
             return f"({self.r(t['a'])} + {self.r(t['b'])})"
         if n == "If":
@@ -223,7 +231,7 @@ def to_next(t):
     """the same program with every call site turned into call_next (generator wrapper)"""
     if isinstance(t, dict):
         t = {k: to_next(v) for k, v in t.items()}
-        if t.get("n") == "C":
+        if t.get("n") in ("C", "CX"):
             t["site"] = "N"
         return t
     if isinstance(t, list):
@@ -235,7 +243,7 @@ def no_walrus(t):
     n = t["n"]
     if n in ("T", "B", "X", "null"):
         return True
-    if n == "W":
+    if n in ("W", "CX"):
         return False
     if n == "C":
         return no_walrus(t["arg"]) and no_walrus(t["kw"])
